@@ -158,15 +158,19 @@ def run_property(pid, tier="quick", replay=None, root=None, write_evidence=True)
         return 2
 
     seeded_out = []
+    refactor_out = []
     if tier == "thorough" and not replay and root is None:
         try:
             seeded_out = replay_seeded(pid, mod)
+            refactor_out = replay_refactors(pid)
         except AnalysisBroken as e:
             print("ANALYSIS-BROKEN property=%s: %s" % (pid, e))
             return 2
     known, _fixed = load_known()
     nviol = 0
-    os.makedirs(os.path.join(EVID, "replay"), exist_ok=True)
+    # replay records of a run against another tree (--root: mutant/refactor evaluation) stay out of evidence/
+    replay_dir = os.path.join(EVID, "replay") if root is None else os.path.join(facts.CACHE, "replay-other-root")
+    os.makedirs(replay_dir, exist_ok=True)
     rules_out = []
     total = nontriv = 0
     samples = []
@@ -190,7 +194,7 @@ def run_property(pid, tier="quick", replay=None, root=None, write_evidence=True)
                 ro["violations"].append(dict(v.as_dict(), known_finding=True))
                 continue
             nviol += 1
-            rp = os.path.join(EVID, "replay", "%s-%d.json" % (pid, nviol))
+            rp = os.path.join(replay_dir, "%s-%d.json" % (pid, nviol))
             with open(rp, "w") as fh:
                 json.dump({"property": pid, "rule": r.rule, "rule_text": r.text, "key": v.key,
                            "loc": v.loc, "detail": v.detail, "path": v.path}, fh, indent=1)
@@ -228,6 +232,7 @@ def run_property(pid, tier="quick", replay=None, root=None, write_evidence=True)
                 "rules": rules_out,
                 "selftests": st,
                 "seeded_changes": seeded_out,
+                "behaviour_preserving_rewrites": refactor_out,
                 "samples": samples[:40],
                 "units": sorted(set(getattr(ctx, "units_seen", []))) or _units(ctx),
                 "notes": ctx.notes,
@@ -283,6 +288,47 @@ def replay_seeded(pid, mod):
                 raise AnalysisBroken("seeded change %s, recorded as detected by %s, is no longer reported" % (sid, pid))
         finally:
             shutil.rmtree(scratch, ignore_errors=True)
+    return out
+
+
+def replay_refactors(pid):
+    """Thorough tier: the behaviour-preserving rewrites under refactors/ (written by
+    independent sub-agents, each suite-clean) are applied one at a time to a scratch
+    copy of /repo's sources; the property's rules must not report a violation on any
+    of them.  An alarm there is a defect of the checker (analysis broken), never a
+    finding about /repo.  A rewrite the rules cannot follow (undecided) is recorded."""
+    import shutil
+    import subprocess
+    import tempfile
+    from concurrent.futures import ThreadPoolExecutor
+    rdir = os.path.join(VERIF, "refactors")
+    if not os.path.isdir(rdir):
+        return []
+    ids = sorted(d for d in os.listdir(rdir) if os.path.exists(os.path.join(rdir, d, "patch.diff")))
+
+    def one(rid):
+        scratch = tempfile.mkdtemp(prefix="btv-refac-", dir=facts.CACHE)
+        try:
+            subprocess.run(["rsync", "-a", "--exclude", ".git", "--exclude", "_build", facts.REPO + "/", scratch + "/"], check=True)
+            pr = subprocess.run(["patch", "-p1", "-s", "-d", scratch, "-i", os.path.join(rdir, rid, "patch.diff")],
+                                stdout=subprocess.PIPE, stderr=subprocess.STDOUT)
+            if pr.returncode != 0:
+                return {"id": rid, "status": "skipped: patch no longer applies"}
+            p = subprocess.run([sys.executable, "-c", "import sys; from btv.runner import main; sys.exit(main())",
+                                pid, "--root", scratch, "--tier", "quick"], cwd=VERIF,
+                               stdout=subprocess.PIPE, stderr=subprocess.STDOUT)
+            lines = [l.strip() for l in p.stdout.decode(errors="replace").splitlines()
+                     if l.startswith(("  R-", "ANALYSIS", "UNDECIDED"))]
+            st = {0: "silent", 1: "FALSE ALARM", 2: "undecided"}.get(p.returncode, "error")
+            return {"id": rid, "status": st, "reports": lines[:2]} if p.returncode else {"id": rid, "status": st}
+        finally:
+            shutil.rmtree(scratch, ignore_errors=True)
+    with ThreadPoolExecutor(8) as ex:
+        out = list(ex.map(one, ids))
+    bad = [o for o in out if o["status"] in ("FALSE ALARM", "error")]
+    if bad:
+        raise AnalysisBroken("the rules of %s report a violation on behaviour-preserving rewrite(s) %s: %s" %
+                             (pid, ", ".join(o["id"] for o in bad), (bad[0].get("reports") or [""])[0][:200]))
     return out
 
 
